@@ -25,7 +25,13 @@ import (
 func c11Placeholder(r *fw.Rand) ref.Node {
 	a, b := &ref.DataRef{Name: "a"}, &ref.DataRef{Name: "b"}
 	one, two := &ref.Lit{V: ref.Int(1)}, &ref.Lit{V: ref.Int(2)}
-	switch r.Intn(12) {
+	switch r.Intn(15) {
+	case 12: // the same expression under different directives is a different placeholder
+		return &ref.Print{E: &ref.DataRef{Name: "s"}, Dirs: []ref.Dir{{Name: "noAutoescape"}}}
+	case 13:
+		return &ref.Print{E: &ref.DataRef{Name: "s"}, Dirs: []ref.Dir{{Name: "truncate", Args: []ref.Expr{&ref.Lit{V: ref.Int(2)}}}}}
+	case 14:
+		return &ref.Print{E: &ref.DataRef{Name: "t"}, Dirs: []ref.Dir{{Name: "escapeHtml"}, {Name: "id"}}}
 	case 0:
 		return &ref.Print{E: &ref.DataRef{Name: "s"}}
 	case 1:
